@@ -38,10 +38,40 @@ def _env():
     return torch, U
 
 
-def run_fn(torch, U, scores, best):
+LAYOUTS = ["tview", "strided", "fortran"]
+
+
+def with_layout(torch, t, layout):
+    """The same values as the 2-D (or 1-D) tensor t in another dense / strided memory layout."""
+    if layout == "contig":
+        return t.contiguous()
+    if t.dim() == 1:
+        big = torch.zeros(2 * t.numel(), dtype=t.dtype)
+        big[::2] = t
+        return big[::2]
+    if layout == "tview":                       # transposed view of a channels-by-precisions table
+        r = t.t().contiguous().t()
+    elif layout == "strided":                   # every second column of a wider table
+        big = torch.zeros(t.shape[0], 2 * t.shape[1], dtype=t.dtype)
+        big[:, ::2] = t
+        r = big[:, ::2]
+    elif layout == "fortran":                   # column-major strides
+        r = torch.empty_strided(t.shape, (1, t.shape[0]), dtype=t.dtype)
+        r.copy_(t)
+    else:
+        raise tlc.MachineryError(f"unknown layout {layout}")
+    if not torch.equal(r, t) or (r.is_contiguous() and min(t.shape) > 1):
+        raise tlc.MachineryError("layout helper did not produce an equal, non-contiguous tensor")
+    return r
+
+
+def run_fn(torch, U, scores, best, layout="contig"):
     """One call of the real _reassign_precisions. scores: PxC ints, best: P ints."""
-    out = U._reassign_precisions(torch.tensor(best, dtype=torch.float32),
-                                 torch.tensor(scores, dtype=torch.float32))
+    tb = torch.tensor(best, dtype=torch.float32)
+    ts = with_layout(torch, torch.tensor(scores, dtype=torch.float32), layout)
+    if layout != "contig":
+        tb = with_layout(torch, tb, layout)
+    out = U._reassign_precisions(tb, ts)
     m = out.tolist()
     res = []
     for row in m:
@@ -104,7 +134,7 @@ def build_model(torch, sc):
     g = torch.Generator().manual_seed(sc["seed"] + 1)
     for _, p in m.named_nas_parameters():
         if p.dim() == 2:
-            p.data = torch.rand(p.shape, generator=g)
+            p.data = with_layout(torch, torch.rand(p.shape, generator=g), sc.get("lay", "contig"))
     return m
 
 
@@ -243,11 +273,11 @@ class LifeBench:
     def qtz(self, m):
         return {n.split(".")[1]: q for n, q in m.named_modules() if isinstance(q, self.Q)}
 
-    def write(self, m, which):
+    def write(self, m, which, layout="contig"):
         k1, k2, ph = LIFE_ALPHA[which]
         q = self.qtz(m)
-        q["c1"].alpha.data = _trained_like(self.torch, k1, LIFE_WIDTHS[0], ph)
-        q["c2"].alpha.data = _trained_like(self.torch, k2, LIFE_WIDTHS[1], ph)
+        q["c1"].alpha.data = with_layout(self.torch, _trained_like(self.torch, k1, LIFE_WIDTHS[0], ph), layout)
+        q["c2"].alpha.data = with_layout(self.torch, _trained_like(self.torch, k2, LIFE_WIDTHS[1], ph), layout)
 
     def fresh(self, which):
         """Outcome of the refinement on a fresh model holding alpha set `which`."""
@@ -257,11 +287,11 @@ class LifeBench:
             self._fresh[which] = observe_refine(self.torch, self.U, m, prepare=True)
         return self._fresh[which]
 
-    def run(self, hist):
+    def run(self, hist, layout="contig"):
         torch = self.torch
         m = self.copy.deepcopy(self.pristine)
         which = "A"
-        self.write(m, which)                       # = Reassign!LifeInit
+        self.write(m, which, layout)               # = Reassign!LifeInit
         torch.manual_seed(99)                      # Gumbel noise reproducible
         for a in hist:
             if a == "train":
@@ -283,7 +313,7 @@ class LifeBench:
                 m.update_softmax_options(temperature=1.0)
             elif a == "write":
                 which = "B" if which == "A" else "A"
-                self.write(m, which)
+                self.write(m, which, layout)
             else:
                 raise tlc.MachineryError(f"unknown life action {a}")
         # projection of the real model just before the refinement
@@ -306,9 +336,14 @@ class LifeBench:
             raise
         except Exception as e:      # the refinement itself failed on this history (it works on the fresh model)
             obs = {"skip": type(e).__name__ + ": " + str(e)[:80]}
+        tr = {"k": "mlife", "hist": list(hist), "pre": pre, "fresh": fr}
+        if layout != "contig":
+            tr["lay"] = layout
         if "skip" in obs:
-            return {"k": "mlife", "hist": list(hist), "pre": pre, "raised": obs["skip"], "fresh": fr}
-        return {"k": "mlife", "hist": list(hist), "pre": pre, "obs": obs, "fresh": fr}
+            tr["raised"] = obs["skip"]
+        else:
+            tr["obs"] = obs
+        return tr
 
 
 # ------------------------------------------------------------------------------------- several refinable layers
@@ -407,7 +442,7 @@ def random_model_scenario(rng, big):
     hi = 70 if big else 40
     return {"kind": "model", "bits": bits, "cin": rng.choice([1, 3, 16, 20]), "c1": rng.randint(2, hi),
             "c2": rng.randint(2, hi), "ncls": rng.randint(2, 12), "hw": rng.choice([4, 6, 8]),
-            "seed": rng.randrange(1 << 30)}
+            "seed": rng.randrange(1 << 30), "lay": rng.choice(["contig", "contig"] + LAYOUTS)}
 
 
 # ------------------------------------------------------------------------------------- check
@@ -435,11 +470,13 @@ def run(tier: str, seed: int, replay=None) -> int:
         if sc["kind"] == "multi":
             tr = MultiBench(torch, U).run(sc["ml"])
         elif sc["kind"] == "mlife":
-            tr = LifeBench(torch, U).run(sc["hist"])
+            tr = LifeBench(torch, U).run(sc["hist"], layout=sc.get("lay", "contig"))
         elif sc["kind"] == "model":
             tr = run_model(torch, U, sc)
         else:
             tr = {"k": "fn", "scores": sc["scores"], "best": sc["best"], "out": run_fn(torch, U, sc["scores"], sc["best"])}
+            if sc.get("lay"):
+                tr = dict(tr, lay=sc["lay"], outc=tr["out"], out=run_fn(torch, U, sc["scores"], sc["best"], sc["lay"]))
         R.validate("ReassignTrace", "ReassignTrace", [tr], [sc], env=JENV)
         return R.finish()
 
@@ -486,12 +523,17 @@ def run(tier: str, seed: int, replay=None) -> int:
         traces.append({"k": "fn", "scores": scores, "best": best, "out": out})
         scen.append({"kind": "fn", "src": "state", "scores": scores, "best": best,
                      "nontrivial": [cur.count(p) for p in range(P)] != best, "pred_eq": pred == out})
-    if len(traces) != 2880:
-        raise tlc.MachineryError(f"expected 2880 final states, got {len(traces)}")
+        lay = LAYOUTS[len(traces) % len(LAYOUTS)]
+        traces.append({"k": "fn", "scores": scores, "best": best, "lay": lay, "outc": out,
+                       "out": run_fn(torch, U, scores, best, lay)})
+        scen.append({"kind": "fn", "src": "state-layout", "lay": lay, "scores": scores, "best": best,
+                     "nontrivial": [cur.count(p) for p in range(P)] != best})
+    if len(traces) != 2 * 2880:
+        raise tlc.MachineryError(f"expected 2880 final states, got {len(traces) // 2}")
     if design_bad != n_bad_design:
         raise tlc.MachineryError(f"design runs disagree: dump shows {design_bad} inputs with unmet counts, -continue run {n_bad_design}")
     R.extra["asis_design_inputs_violating_counts_2x3"] = design_bad
-    R.extra["real_output_equals_tlc_asis_result_2x3"] = sum(1 for s in scen if s["pred_eq"])
+    R.extra["real_output_equals_tlc_asis_result_2x3"] = sum(1 for s in scen if s.get("pred_eq"))
     R.sample({"scenario": {k: scen[0][k] for k in ("scores", "best")}, "observed": traces[0]["out"]})
 
     # ---- 3. code -> spec: random matrices beyond the exhaustive bound
@@ -506,8 +548,14 @@ def run(tier: str, seed: int, replay=None) -> int:
         cuts = sorted(rng.randint(0, C) for _ in range(P - 1))
         best = [b - a for a, b in zip([0] + cuts, cuts + [C])]
         cur = [max(range(P), key=lambda p: scores[p][c]) for c in range(C)]
-        traces.append({"k": "fn", "scores": scores, "best": best, "out": run_fn(torch, U, scores, best)})
+        outc = run_fn(torch, U, scores, best)
+        traces.append({"k": "fn", "scores": scores, "best": best, "out": outc})
         scen.append({"kind": "fn", "src": "random", "scores": scores, "best": best,
+                     "nontrivial": [cur.count(p) for p in range(P)] != best})
+        lay = rng.choice(LAYOUTS)
+        traces.append({"k": "fn", "scores": scores, "best": best, "lay": lay, "outc": outc,
+                       "out": run_fn(torch, U, scores, best, lay)})
+        scen.append({"kind": "fn", "src": "random-layout", "lay": lay, "scores": scores, "best": best,
                      "nontrivial": [cur.count(p) for p in range(P)] != best})
     if thorough:
         # all 8! x 5 inputs of size 2x4
@@ -521,7 +569,7 @@ def run(tier: str, seed: int, replay=None) -> int:
                 scen.append({"kind": "fn", "src": "all2x4", "scores": scores, "best": best,
                              "nontrivial": [cur.count(p) for p in range(P)] != best})
     verdicts = R.validate("ReassignTrace", "ReassignTrace", traces, scen, nontrivial=lambda s: s["nontrivial"],
-                          key=lambda s: [s["scores"], s["best"]], label="reassign step", workers=8, env=JENV)
+                          key=lambda s: [s["scores"], s["best"], s.get("lay", "contig")], label="reassign step", workers=8, env=JENV)
     n_known_states = sum(1 for s, v in zip(scen, verdicts) if s["src"] == "state" and v.startswith("known:F18"))
     R.extra["real_inputs_violating_counts_2x3"] = n_known_states
     viol_states = sum(1 for s, v in zip(scen, verdicts) if s["src"] == "state" and v != "ok")
@@ -546,12 +594,17 @@ def run(tier: str, seed: int, replay=None) -> int:
         h = list(stt["hist"])
         ltr.append(bench.run(h))
         lsc.append({"kind": "mlife", "hist": h})
+    for lay in LAYOUTS:                              # same values, other memory layout of alpha: same outcome
+        for h in ([], ["write"], ["fwd", "write"], ["eval"]):
+            ltr.append(bench.run(h, layout=lay))
+            lsc.append({"kind": "mlife", "hist": h, "lay": lay})
     # non-vacuity: on the clean model the refinement really chooses other counts than the current ones
     fresh_changed = {w: any([round(b / 1e6) for b in l["bestu"]] != [l["before"].count(p + 1) for p in range(len(l["bits"]))]
                             for l in bench.fresh(w)["layers"]) for w in ("A", "B")}
     if not all(fresh_changed.values()):
         raise tlc.MachineryError("life bench: the refinement of the fresh clean model is trivial")
     R.extra["life_histories_replayed"] = len(ltr)
+    R.extra["alpha_layout_runs"] = sum(1 for s_ in lsc if s_.get("lay"))
     R.sample({"scenario": lsc[-1], "observed": {"pre": ltr[-1]["pre"],
                                                 "chosen": [l["bestu"] for l in ltr[-1].get("obs", {"layers": []})["layers"]]}})
     R.validate("ReassignTrace", "ReassignTrace", ltr, lsc, nontrivial=lambda s_: len(s_["hist"]) > 0,
